@@ -168,6 +168,15 @@ def run_gen(c, o):
         o.close("gen/planar", full[:, :, 2], 0.0, rtol=0, atol=0)
     else:
         o.true("gen/crm_twist_len", len(twh) == 2 and len(twf) == 2, "default num_twist_cp=2 must give 2 twist values")
+    # a returned mesh belongs to the caller: editing it in place must not change what later calls return
+    keep_f, keep_h = full.copy(), half.copy()
+    full += 0.37
+    half[:, :, 2] -= 1.9
+    again_f, _ = gen(False)
+    again_h, _ = gen(True)
+    o.close("gen/calls_independent", again_f, keep_f, rtol=0, atol=0, what="full mesh generated again after the first result was edited in place")
+    o.close("gen/calls_independent", again_h, keep_h, rtol=0, atol=0, what="half mesh generated again after the first result was edited in place")
+    full, half = keep_f, keep_h
     # offsets are pure translations
     fo, _ = gen(False, off)
     ho, _ = gen(True, off)
